@@ -27,6 +27,7 @@ THEOREMS = ['C15.quotes_table_ok', 'C15.bool_table_ok', 'C15.lists_table_ok', 'C
             'C15.socket_timeout_verdict', 'C15.socket_timeout_reject_atomic',
             'C15.validators_check_before_store', 'C15.guarded_verdict', 'C15.guarded_string_roundtrip', 'C15.only_some_strings_roundtrip',
             'C15.json_roundtrip', 'C15.float_roundtrip', 'C15.regexp_roundtrip',
+            'C15.nw_table_ok', 'C15.normalized_value_roundtrip', 'C15.normalize_idempotent',
             'C15.call_fresh_noop', 'C15.call_reread_same',
             'C15.save_load_roundtrip', 'C15.save_load_counterexample', 'C15.rt_string', 'C15.rt_bool', 'C15.rt_int']
 TRUSTED = ['Lean 4.33.0 kernel; axioms ⊆ {propext, Classical.choice, Quot.sound}',
